@@ -1,3 +1,4 @@
+import ZbossModel.Proofs.HostRest
 import ZbossModel.Proofs.HostAck
 import ZbossModel.Proofs.NcpWire
 /-! # C11 - any request reaches the NCP intact, fragments contiguous, each awaiting its ACK
@@ -62,22 +63,23 @@ theorem C11_write_step (st : St) (i : Nat) (r : Req) (fuel : Nat) (hg : getReq s
     / loss timing - is accepted by the message monitor `monStep`: a fragment numbered 0 is written only when no
     message is open, a fragment numbered `f > 0` only when the open message is this request's and `f` is the
     next fragment; a message stays open until its last fragment is written or its request ends -/
-theorem C11_trace (evs : List Ev) : ∃ m, monRun none (runEvents {} evs).2.flatten = some m := mon_accepts evs
+theorem C11_trace (evs : List Ev) (hnc : ∀ e ∈ evs, e ≠ .connect) :
+    ∃ m, monRun none (runEvents {} evs).2.flatten = some m := mon_accepts evs (gen_zero evs hnc)
 
 /-- the same without the monitor: whenever fragment `f > 0` of request `i` is written, the last data frame
     written before it - in the whole history - is fragment `f - 1` of the same request, and the request did not
     end in between.  Hence the fragments of one message are never interleaved with data frames of another -/
-theorem C11_contiguous (evs : List Ev) (pre post : List Out) (i f s n : Nat) (hf : 0 < f)
+theorem C11_contiguous (evs : List Ev) (hnc : ∀ e ∈ evs, e ≠ .connect) (pre post : List Out) (i f s n : Nat) (hf : 0 < f)
     (hlog : (runEvents {} evs).2.flatten = pre ++ [.write i f s n] ++ post) :
     ∃ pre1 mid s', pre = pre1 ++ [.write i (f - 1) s' n] ++ mid ∧
       ∀ o ∈ mid, isWrite o = false ∧ isDoneOf i o = false :=
-  contiguous_of_accepts _ pre post i f s n hf (C11_trace evs) hlog
+  contiguous_of_accepts _ pre post i f s n hf (C11_trace evs hnc) hlog
 
 /-- a message is abandoned for good: once a request has ended, none of its fragments `f > 0` is ever written -/
-theorem C11_no_fragment_after_end (evs : List Ev) (pre post : List Out) (i f s n : Nat) (hf : 0 < f) (o : Outcome)
+theorem C11_no_fragment_after_end (evs : List Ev) (hnc : ∀ e ∈ evs, e ≠ .connect) (pre post : List Out) (i f s n : Nat) (hf : 0 < f) (o : Outcome)
     (hlog : (runEvents {} evs).2.flatten = pre ++ [.write i f s n] ++ post) (s' : Nat) (a b : List Out)
     (hpre : pre = a ++ [.write i (f - 1) s' n] ++ b) (hb : ∀ x ∈ b, isWrite x = false) : Out.done i o ∉ b := by
-  obtain ⟨pre1, mid, s'', he, hfree⟩ := C11_contiguous evs pre post i f s n hf hlog
+  obtain ⟨pre1, mid, s'', he, hfree⟩ := C11_contiguous evs hnc pre post i f s n hf hlog
   -- the two decompositions of `pre` around its last data frame coincide
   have hlast : ∀ (l1 l2 m1 m2 : List Out) (w1 w2 : Out), l1 ++ [w1] ++ m1 = l2 ++ [w2] ++ m2 → isWrite w1 = true →
       isWrite w2 = true → (∀ x ∈ m1, isWrite x = false) → (∀ x ∈ m2, isWrite x = false) → m1 = m2 := by
@@ -123,9 +125,9 @@ theorem C11_no_fragment_after_end (evs : List Ev) (pre post : List Out) (i f s n
     transmission of its message, and everything written so far is accepted by the message monitor -/
 theorem C11_any_schedule (hist : List Out) (st : St) (h : MReach hist st) :
     (∀ r1 ∈ st.reqs, ∀ r2 ∈ st.reqs, inTransmit r1.phase = true → inTransmit r2.phase = true → r1 = r2) ∧
-    ∃ m, monRun none (hist ++ st.out) = some m := by
-  obtain ⟨⟨hinv, m, hm, _⟩, _⟩ := mreach_inv hist st h
-  refine ⟨?_, m, hm⟩
+    (st.gen = 0 → ∃ m, monRun none (hist ++ st.out) = some m) := by
+  obtain ⟨⟨hinv, hmon⟩, _⟩ := mreach_inv hist st h
+  refine ⟨?_, fun hg => (by obtain ⟨m, hm, _⟩ := hmon hg; exact ⟨m, hm⟩)⟩
   intro r1 h1 r2 h2 t1 t2
   have a1 := (hinv.2 r1 h1).1 .M ((hinv.2 r1 h1).2.1 t1)
   have a2 := (hinv.2 r2 h2).1 .M ((hinv.2 r2 h2).2.1 t2)
